@@ -24,6 +24,8 @@ NONE == "<none>"
 E(d, n, title, cls, pre) == [d |-> d, n |-> n, title |-> title, cls |-> cls, pre |-> pre, xr |-> 1]
 X(e, k) == [e EXCEPT !.xr = k]          \* a leaf written with an explicit repeater *k
 PH == "$#"             \* marks a placeholder site in title / pre
+PHW == "$#whole"       \* a placeholder outside every implicit repeater: the whole supplied text
+PHW2 == "[$#whole]"    \* ... inside brackets
 Templates == <<
   [abbr |-> "ul>li*",                 items |-> <<E(0,"ul",NONE,NONE,""), E(1,"li",NONE,NONE,"")>>,                                lo |-> 2, hi |-> 2],
   [abbr |-> "ul>li*>b",               items |-> <<E(0,"ul",NONE,NONE,""), E(1,"li",NONE,NONE,""), E(2,"b",NONE,NONE,"")>>,          lo |-> 2, hi |-> 3],
@@ -46,7 +48,10 @@ Templates == <<
   [abbr |-> "ul>li*>br",              items |-> <<E(0,"ul",NONE,NONE,""), E(1,"li",NONE,NONE,""), E(2,"br",NONE,NONE,"")>>,         lo |-> 2, hi |-> 3],   \* deepest last element is a void element
   [abbr |-> "x>y/",                   items |-> <<E(0,"x",NONE,NONE,""), E(1,"y",NONE,NONE,"")>>,                                  lo |-> 0, hi |-> 0],     \* ... carries the self-closing mark
   [abbr |-> "ul>li{x${1:y}}*",        items |-> <<E(0,"ul",NONE,NONE,""), E(1,"li",NONE,NONE,"xy")>>,                              lo |-> 2, hi |-> 2],   \* written text ends in a field
-  [abbr |-> "p{q${0}}",               items |-> <<E(0,"p",NONE,NONE,"q")>>,                                                        lo |-> 0, hi |-> 0] >>
+  [abbr |-> "p{q${0}}",               items |-> <<E(0,"p",NONE,NONE,"q")>>,                                                        lo |-> 0, hi |-> 0],
+  \* a placeholder outside (after) the repeated item stands for the whole supplied text, as it does without any repeater
+  [abbr |-> "li{$#}*+p{$#}",          items |-> <<E(0,"li",NONE,NONE,PH), E(0,"p",NONE,NONE,PHW)>>,                                lo |-> 1, hi |-> 1],
+  [abbr |-> "ul>(li>b{$#})*+i{[$#]}", items |-> <<E(0,"ul",NONE,NONE,""), E(1,"li",NONE,NONE,""), E(2,"b",NONE,NONE,PH), E(1,"i",NONE,NONE,PHW2)>>, lo |-> 2, hi |-> 3] >>
 
 VARIABLES tpl, lines
 vars == <<tpl, lines>>
@@ -76,7 +81,9 @@ CopyItem(k, i, tx) == LET it == T.items[k] IN
      text |-> IF it.pre = PH THEN tx
               ELSE IF ~HasPH /\ k = T.hi THEN it.pre \o tx        \* appended once to the deepest last element of the copy
               ELSE it.pre]
-PlainItem(k) == LET it == T.items[k] IN [d |-> it.d, n |-> it.n, title |-> it.title, cls |-> it.cls, text |-> it.pre]
+RawText == JoinSeq(lines, "\n")
+PlainItem(k) == LET it == T.items[k] IN [d |-> it.d, n |-> it.n, title |-> it.title, cls |-> it.cls,
+                                         text |-> IF it.pre = PHW THEN RawText ELSE IF it.pre = PHW2 THEN "[" \o RawText \o "]" ELSE it.pre]
 RECURSIVE FlatSeq(_)
 FlatSeq(ss) == IF ss = <<>> THEN <<>> ELSE Head(ss) \o FlatSeq(Tail(ss))
 \* items a..b, each mapped by F; an explicitly repeated leaf is listed xr times
